@@ -75,6 +75,8 @@ def correspond_c19(tier, impl_only=False):
             mf = (model or {}).get(c["id"], {}).get("facts") if model else None
             if af.get("outcome") == "abort" and isinstance(mf, dict) and mf.get("outcome") == "abort" and oracles.block_ref_cycle(c["adef"]):
                 fid = "F13-block-ref-inside-its-own-target"
+            elif af.get("outcome") == "abort" and isinstance(mf, dict) and mf.get("outcome") == "abort" and oracles.block_named_like_device(c):
+                fid = "F14-block-named-like-the-device"
             res.spec_violations.append({"case": p_gen.slim(c), "why": "the generator " + af.get("outcome") + "s on a definition of the documented language", "finding": fid, "impl": af})
         if af.get("outcome") == "ok" and a.get("tokens"):
             accepted.append((c, a))
